@@ -137,7 +137,88 @@ func runC09(c *kernel.Ctx) {
 			}()
 			f()
 		}
-		switch k := t.Choose(16); k {
+		switch k := t.Choose(18); k {
+		case 16, 17: // replicated-state payloads built on purpose
+			var buf []byte
+			hugeLens := [][]byte{
+				{0xff, 0xff, 0xff, 0xff, 0xff, 0xff, 0xff, 0xff, 0xff, 0x01}, // 2^64-1
+				{0x80, 0x80, 0x80, 0x80, 0x80, 0x80, 0x80, 0x80, 0x80, 0x01}, // 2^63
+				{0xff, 0xff, 0xff, 0xff, 0xff, 0xff, 0xff, 0xff, 0x7f},       // 2^63-1
+				{0xc0, 0xff, 0xff, 0xff, 0xff, 0xff, 0xff, 0xff, 0x7f},       // 2^63-64
+				{0x80, 0x80, 0x80, 0x80, 0x10},                               // 2^32
+				{0x80, 0x80, 0x80, 0x80, 0x08},                               // 2^31
+				{0xff, 0xff, 0xff, 0xff, 0x07},                               // 2^31-1
+				{0x80, 0x80, 0x80, 0x08},                                     // 2^24
+			}
+			switch t.Choose(3) {
+			case 0: // a length (of the map, of a set, of a key or of a value) that no payload could hold
+				body, err := snappy.Decode(nil, validState)
+				if err != nil {
+					c.Harnessf("snappy: %v", err)
+				}
+				at := t.Choose(len(body))
+				huge := hugeLens[t.Choose(len(hugeLens))]
+				mut := append(append(append([]byte(nil), body[:at]...), huge...), body[at:]...)
+				if t.Chance(1, 2) {
+					mut = append(append(append([]byte(nil), body[:at]...), huge...), body[at+1:]...) // replace instead of insert
+				}
+				buf = snappy.Encode(nil, mut)
+				what = "crafted-state huge-length"
+			default: // well-formed sets whose entries have keys of any length (an event key is 16 bytes + 4 per channel level) and any subset type
+				// wire format: uvarint number of sets; per set: type byte, uvarint number of entries; per
+				// entry: uvarint-prefixed key, uvarint-prefixed value (8 bytes add time, 8 bytes remove time, payload)
+				uv := func(b []byte, x uint64) []byte {
+					for x >= 0x80 {
+						b = append(b, byte(x)|0x80)
+						x >>= 7
+					}
+					return append(b, byte(x))
+				}
+				nsets := t.Range(1, 2)
+				enc := uv(nil, uint64(nsets))
+				for n := 0; n < nsets; n++ {
+					typ := byte((t.Choose(4) + n) % 4) // 3: a type this version does not know
+					ne := t.Range(1, 3)
+					enc = uv(append(enc, typ), uint64(ne))
+					for e := 0; e < ne; e++ {
+						kl := []int{0, 1, 7, 8, 15, 16, 17, 19, 20, 21, 24, 40}[t.Choose(12)]
+						key := make([]byte, kl)
+						for i := range key {
+							key[i] = byte(0x11 * (i%15 + 1))
+						}
+						if kl >= 8 && t.Chance(1, 2) {
+							copy(key, []byte{0, 0, 0, 0, 0, 0, 0, 2}) // a peer this broker knows
+						}
+						val := make([]byte, 16)
+						stamp := uint64(time.Now().UnixNano())
+						off := 0
+						if t.Chance(1, 2) {
+							off = 8 // a removal
+						}
+						for i := 0; i < 8; i++ {
+							val[off+i] = byte(stamp >> (56 - 8*i))
+						}
+						if t.Chance(1, 3) {
+							val = append(val, []byte{0x03, 0x01, 0x02}[:t.Range(1, 3)]...)
+						} else if t.Chance(1, 3) {
+							// an encoded event whose string / byte fields announce a length no payload could hold
+							val = append(val, []byte{0x01, 0x00, 0x02}[:t.Choose(4)]...)
+							val = append(val, hugeLens[t.Choose(len(hugeLens))]...)
+							val = append(val, 'x', 'y')
+						}
+						if t.Chance(1, 8) {
+							val = val[:[]int{0, 8, 15}[t.Choose(3)]] // shorter than the two times
+						}
+						enc = append(uv(enc, uint64(len(key))), key...)
+						enc = append(uv(enc, uint64(len(val))), val...)
+					}
+				}
+				buf = snappy.Encode(nil, enc)
+				what = "crafted-state odd-keys"
+			}
+			gossip("OnGossip", func() { sw.OnGossip(buf) })
+			gossip("OnGossipBroadcast", func() { sw.OnGossipBroadcast(2, buf) })
+			injected = 2 * len(buf)
 		case 14, 15: // frames built on purpose: what a hostile (or merely unusual) peer can put on the cluster port
 			var buf []byte
 			fixID := func(m *message.Message) *message.Message { // time, sequence and process nonce of the id: fixed, so that the bytes replay
@@ -163,7 +244,11 @@ func runC09(c *kernel.Ctx) {
 					{0x80, 0x80, 0x80, 0x80, 0x80, 0x80, 0x80, 0x80, 0x80, 0x01}, // 2^63
 					{0x80, 0x80, 0x80, 0x08},                                     // 2^24
 					{0xff, 0xff, 0xff, 0xff, 0x07},                               // 2^31-1
-				}[t.Choose(4)]
+					{0xff, 0xff, 0xff, 0xff, 0xff, 0xff, 0xff, 0xff, 0x7f},       // 2^63-1
+					{0xc0, 0xff, 0xff, 0xff, 0xff, 0xff, 0xff, 0xff, 0x7f},       // 2^63-64
+					{0x80, 0x80, 0x80, 0x80, 0x10},                               // 2^32
+					{0x80, 0x80, 0x80, 0x80, 0x08},                               // 2^31
+				}[t.Choose(8)]
 				mut := append(append(append([]byte(nil), body[:at]...), huge...), body[at:]...)
 				if t.Chance(1, 2) && at+1 <= len(body) {
 					mut = append(append(append([]byte(nil), body[:at]...), huge...), body[at+1:]...) // replace instead of insert
@@ -173,9 +258,26 @@ func runC09(c *kernel.Ctx) {
 				if at == 0 {
 					what = "crafted-frame huge-count"
 				}
-			case 2: // a survey request whose channel lacks the reply address
-				ch := []string{"ssdstore", "presence", "x/notanumber", "", "/"}[t.Choose(5)]
-				m := fixID(message.New(message.Ssid{0, 3939663052, uint32(t.Choose(5))}, []byte(ch), []byte("{}")))
+			case 2: // a survey request whose channel lacks the reply address, or whose query announces impossible lengths
+				ch := []string{"ssdstore", "presence", "x/notanumber", "", "/", "ssdstore/2", "presence/2", "ssdstore/2", "ssdstore/2"}[t.Choose(9)]
+				payload := []byte("{}")
+				if t.Chance(1, 2) {
+					huge := [][]byte{
+						{0xff, 0xff, 0xff, 0xff, 0xff, 0xff, 0xff, 0xff, 0xff, 0x01}, // 2^64-1
+						{0x80, 0x80, 0x80, 0x80, 0x80, 0x80, 0x80, 0x80, 0x80, 0x01}, // 2^63
+						{0xff, 0xff, 0xff, 0xff, 0xff, 0xff, 0xff, 0xff, 0x7f},       // 2^63-1
+						{0x80, 0x80, 0x80, 0x80, 0x10},                               // 2^32
+						{0xff, 0xff, 0xff, 0xff, 0x07},                               // 2^31-1
+						{0x80, 0x80, 0x80, 0x80, 0x01},                               // 2^28
+					}[t.Choose(6)]
+					if t.Chance(1, 2) { // the number of SSID parts
+						payload = append(append([]byte(nil), huge...), 1, 2, 3)
+					} else { // a well-formed SSID and window, then the length of the continuation id
+						payload = append([]byte{0x02, 0x01, 0x02, 0x00, 0x00}, huge...)
+						payload = append(payload, 1, 2, 3)
+					}
+				}
+				m := fixID(message.New(message.Ssid{0, 3939663052, uint32(t.Choose(5))}, []byte(ch), payload))
 				f := message.Frame{*m}
 				buf = f.Encode()
 				what = "crafted-frame survey-request"
